@@ -16,6 +16,10 @@ def _result(value):  # noqa: ANN001, ANN202
     return Result(value)
 
 
+class _NonFinite(Exception):
+    """The right-hand side is not finite at the probe points: an integration failure."""
+
+
 class ExactLinear:
     """Stub integrator: probes the REAL rhs (the Model it is given) for A and b, checks
     linearity and autonomy at a fixed probe point (else HarnessError), and returns the exact
@@ -41,6 +45,8 @@ class ExactLinear:
             e = [0.0] * n
             e[j] = 1.0
             a[:, j] = np.array(self.rhs(t, e), dtype=float) - b
+        if not (np.all(np.isfinite(a)) and np.all(np.isfinite(b))):
+            raise _NonFinite
         z = np.array([0.37 + 0.61 * j for j in range(n)])
         want = a @ z + b
         for tt in (t, t + 1.7):
@@ -70,9 +76,17 @@ class ExactLinear:
         tp = np.array(time_points, dtype=float)
         if tp[0] != self.t0:
             tp = np.insert(tp, 0, self.t0)
-        a, b = self._ab()
-        y0 = np.array(self.y0, dtype=float)
-        vals = np.array([self._flow(a, b, y0, t - self.t0) for t in tp])
+        from mxlpy.types import IntegrationFailure
+
+        try:
+            a, b = self._ab()
+            y0 = np.array(self.y0, dtype=float)
+            with np.errstate(all="ignore"):
+                vals = np.array([self._flow(a, b, y0, t - self.t0) for t in tp])
+        except (_NonFinite, ValueError, OverflowError):
+            return _result(IntegrationFailure())
+        if not np.all(np.isfinite(vals)):
+            return _result(IntegrationFailure())
         self.t0 = float(tp[-1])
         self.y0 = tuple(vals[-1])
         return _result(TimeCourse(time=tp, values=vals))
@@ -83,11 +97,22 @@ class ExactLinear:
         from mxlpy.types import NoSteadyState
 
         self.calls += 1
-        a, b = self._ab()
+        try:
+            a, b = self._ab()
+        except _NonFinite:
+            from mxlpy.types import IntegrationFailure
+
+            return _result(IntegrationFailure())
         y1 = np.array(self.y0, dtype=float)
         t = self.t0
         for _ in range(max_steps):
-            y2 = self._flow(a, b, y1, step_size)
+            try:
+                with np.errstate(all="ignore"):
+                    y2 = self._flow(a, b, y1, step_size)
+            except (ValueError, OverflowError):
+                return _result(NoSteadyState())
+            if not np.all(np.isfinite(y2)):
+                return _result(NoSteadyState())
             t += step_size
             with np.errstate(all="ignore"):
                 diff = (y2 - y1) / y1 if rel_norm else y2 - y1
